@@ -377,13 +377,13 @@ API_VARIANTS = ["pos", "kw", "nostoich", "nondeg", "staged", "lazy", "twice", "u
 def api_surface(rng, kind="api"):
     """The same networks through every entry route (see _analyze_api in props/C19.py)."""
     base = [t for t in G.textbook() if t["name"].split("/")[1] in
-            ("rev-A+B=C", "michaelis-menten", "edelstein", "futile-cycle", "horn-jackson", "open-0>A,0>2A", "autocat", "triangle")]
+            ("rev-A+B=C", "edelstein", "futile-cycle", "horn-jackson", "open-0>A,0>2A", "triangle")]
     base += [d for d in degenerate(rng) if d["view"] == "hyper" and d["name"].split("/")[1] in
-             ("null-step+arc", "in-and-out", "duplicate+reverse", "catalyst")]
+             ("null-step+arc", "duplicate+reverse", "catalyst")]
     out = []
     for b in base:
         for v in API_VARIANTS:
-            for view in (("bip_int",) if v in ("und", "multi") else ("hyper", "bip_int")):
+            for view in (("bip_int",) if v in ("und", "multi") else ("hyper", "bip_int") if v in ("pos", "staged") else ("hyper",)):
                 c = dict(b)
                 c.update(kind=kind, api=v, view=view, name="api/%s/%s/%s" % (v, view, b["name"].split("/", 1)[1]))
                 out.append(c)
